@@ -189,6 +189,7 @@ structure Cfg where
   loadIsPerEntry : Bool        -- wave 3: `load_state` treats every listed file on its own (see `loadEntries`)
   replayOrderPreserved : Bool  -- wave 4: the restored log lists the steps in execution order (see `readLog`)
   loadReadsCommitted : Bool    -- wave 6: a load reads the committed state file, never the temporary file (see `readT`)
+  saveOnEveryEnding : Bool     -- wave 8: a stepping request is followed by the write of the instance however it ends (see `stepCE`)
   loadSkipsUnusable : Bool     -- wave 7: a state file that parses but holds no session state is skipped like an unreadable one
                                -- (proposed repair `C20-load-skips-unusable-state`; not part of `good`, see `NoStartupFailureOnJunk`)
 deriving DecidableEq, Repr
@@ -196,7 +197,8 @@ deriving DecidableEq, Repr
 /-- the two facts the restore of ONE instance relies on -/
 def Cfg.restoreOK (c : Cfg) : Bool := c.replayIsComplete && c.replayOrderPreserved
 
-def Cfg.good (c : Cfg) : Bool := c.replayIsComplete && c.loadIsPerEntry && c.replayOrderPreserved && c.loadReadsCommitted
+def Cfg.good (c : Cfg) : Bool :=
+  c.replayIsComplete && c.loadIsPerEntry && c.replayOrderPreserved && c.loadReadsCommitted && c.saveOnEveryEnding
 
 /-! wave 4: `_replay_session` replays `settings_log` in dictionary order, so it relies on the adapter round trip
 (write + read) keeping the order of the log: decode ∘ encode preserves the order of the steps.  A writer that
@@ -368,6 +370,38 @@ def runCT (c : Cfg) (d : Dyn σ ρ) : Server σ × Tmps → List (Op × Cut) →
   | st, oc :: ocs => (stepCT c d st oc).2 :: runCT c d (stepCT c d st oc).1 ocs
 
 def noTmps : Tmps := fun _ => none
+
+/-! ### wave 8: how a stepping request ends
+
+`run-step`, `run-steps` and `stream-steps` write the instance after their steps.  `stream-steps` does so in a
+generator, after the `try … finally: unlock()` that surrounds the stepping loop, and a stream can end in three ways:
+it runs to the stop time, a step raises (the error is swallowed), or the client hangs up — `GeneratorExit` is thrown
+into the generator at the `yield` it is suspended at.  Mechanism fact `saveOnEveryEnding`: the write is reached in all
+three (on the clean tree a bare `except:` swallows `GeneratorExit` too and control falls through to the write).  The
+defective variant catches `Exception` only: `GeneratorExit` leaves the generator right after `finally`, the steps
+the stream has run are in memory but never reach the state file. -/
+
+inductive Ending where
+  | answered       -- the request ran to its end (complete stream, run-step, run-steps; a failing step ends a stream the same way)
+  | clientGone     -- stream-steps whose client closed the connection after some steps
+deriving DecidableEq, Repr
+
+/-- the configured server with the ending of every stepping request -/
+def stepCE (c : Cfg) (d : Dyn σ ρ) (s : Server σ) (oe : Op × Ending) : Server σ × Resp ρ :=
+  match oe.1, oe.2 with
+  | .step id st, .clientGone =>
+    match effC c d s id with
+    | none => (s, .invalid)
+    | some i =>
+      let r := runStep d i st
+      if c.saveOnEveryEnding then
+        ({ s with live := upd s.live id (some r.1), files := upd s.files id (some (.ok (persist r.1))) }, r.2)
+      else ({ s with live := upd s.live id (some r.1) }, r.2)          -- stepped in memory, not written
+  | op, _ => stepCC c d s op
+
+def runCE (c : Cfg) (d : Dyn σ ρ) : Server σ → List (Op × Ending) → List (Resp ρ)
+  | _, [] => []
+  | s, oe :: oes => (stepCE c d s oe).2 :: runCE c d (stepCE c d s oe).1 oes
 
 /-! ### wave 3: `ExternalStateAdapter.load_state` over the directory listing
 
